@@ -299,3 +299,36 @@ Theorem c01_cycle_is_periodic : forall key n k c,
   (forall k', k' <> key -> cycle_pos k' (snd (cycle_run c key n k)) = cycle_pos k' c).
 Proof. exact cycle_is_periodic. Qed.
 Print Assumptions c01_cycle_is_periodic.
+
+(** Loop helper variables: the helpers of one forloop object are consistent
+    with each other - index = index0 + 1, rindex = rindex0 + 1,
+    index0 + rindex = length, first iff index0 = 0, last iff rindex0 = 0. *)
+Theorem c01_forloop_helper_laws : forall name len idx parent,
+  let fl := VForLoop name len idx parent in
+  exists i i0 r r0 f la,
+    raw_getitem fl (VStr s_index) = GOk (VInt i) /\
+    raw_getitem fl (VStr s_index0) = GOk (VInt i0) /\
+    raw_getitem fl (VStr s_rindex) = GOk (VInt r) /\
+    raw_getitem fl (VStr s_rindex0) = GOk (VInt r0) /\
+    raw_getitem fl (VStr s_length) = GOk (VInt len) /\
+    raw_getitem fl (VStr s_first) = GOk (VBool f) /\
+    raw_getitem fl (VStr s_last) = GOk (VBool la) /\
+    raw_getitem fl (VStr s_name) = GOk (VStr name) /\
+    raw_getitem fl (VStr s_parentloop) = GOk parent /\
+    i0 = idx /\ i = (i0 + 1)%Z /\ r = (r0 + 1)%Z /\ (i0 + r)%Z = len /\
+    f = (i0 =? 0)%Z /\ la = (r0 =? 0)%Z.
+Proof. exact forloop_helper_laws. Qed.
+Print Assumptions c01_forloop_helper_laws.
+
+(** ... and the k-th item of a loop is rendered with the forloop object whose
+    index0 is k and whose length is the loop's (one step of the iteration). *)
+Theorem c01_for_iteration_step : forall g rec x key len parent body it its i c b,
+  for_iter g rec x key len parent body (it :: its) i c b =
+  let r := block g rec body (loop_ctx x key len parent it i c) b in
+  match st r with
+  | SDone | SCont => for_iter g rec x key len parent body its (i + 1)%Z (cx r) (bf r)
+  | SBrk => finish_loop SDone (cx r) (bf r)
+  | s => finish_loop s (cx r) (bf r)
+  end.
+Proof. exact for_iter_cons. Qed.
+Print Assumptions c01_for_iteration_step.
